@@ -270,6 +270,101 @@ def _models():
             return _pyiter(_elems(ex, a[0]))
         return NotImplemented
 
+    def _call_value(ex, st, f, argv):
+        """apply a closure value or a function item to arguments (single decided path)"""
+        f = ex.deref(f) if isinstance(f, SX.Ref) else f
+        if isinstance(f, SX.Obj) and f.adt == "closure":
+            return ex.call_closure(st, f, argv)
+        if isinstance(f, SX.Obj) and f.adt == "fn":
+            callee = ex.lookup(f.fields["fn"])
+            if callee is None or callee.d["argc"] != len(argv):
+                return SX.TOP
+            sub = SX.State()
+            sub.assume, sub.subst, sub.flags = st.assume, st.subst, st.flags
+            paths = ex.run(callee, list(argv), st=sub)
+            if len(paths) != 1:
+                st.flags.add("closure-forks")
+                return SX.TOP
+            return paths[0].ret
+        return SX.TOP
+
+    def _range_items(ex, v):
+        d = ex.deref(v)
+        if isinstance(d, SX.Obj) and set(d.fields) >= {0, 1} and _isint(d.fields[0]) and _isint(d.fields[1]) and d.adt != "pyiter" and d.adt != "array" and d.adt != "tuple":
+            return list(range(d.fields[0], d.fields[1]))
+        return None
+
+    def _map(ex, st, fr, t, a):
+        if len(a) != 2:
+            return NotImplemented
+        items = _range_items(ex, a[0])
+        if items is None:
+            items = _elems(ex, a[0])
+        if items is None:
+            return NotImplemented
+        out = []
+        for it in items:
+            r = _call_value(ex, st, a[1], [it])
+            if r is SX.TOP:
+                return NotImplemented
+            out.append(r)
+        return _pyiter(out)
+
+    def _for_each(ex, st, fr, t, a):
+        if len(a) != 2:
+            return NotImplemented
+        items = _range_items(ex, a[0])
+        if items is None:
+            items = _elems(ex, a[0])
+        if items is None:
+            return NotImplemented
+        for it in list(items):
+            r = _call_value(ex, st, a[1], [it])
+            if r is SX.TOP:
+                return NotImplemented
+        return SX.Obj(adt="()")
+
+    def _collect(ex, st, fr, t, a):
+        d = ex.deref(a[0]) if len(a) == 1 else None
+        if isinstance(d, SX.Obj) and d.adt == "pyiter":
+            vals = [ex.deref(x) if isinstance(x, SX.Ref) else x for x in d.fields["items"]]
+            return SX.Obj(adt="array", fields={i: copy.deepcopy(v) for i, v in enumerate(vals)})
+        return NotImplemented
+
+    def _int1(fun):
+        def h(ex, st, fr, t, a):
+            xs = [ex.deref(x) for x in a]
+            if all(_isint(x) for x in xs):
+                try:
+                    return fun(*xs)
+                except Exception:
+                    return NotImplemented
+            return NotImplemented
+        return h
+
+    def _vidx(v):
+        if isinstance(v, SX.Obj) and v.vidx is not None and not v.fields:
+            return v.vidx
+        if isinstance(v, SX.Obj) and isinstance(v.name, str) and v.name.startswith("const:") and "#" in v.name:
+            try:
+                return int(v.name.rsplit("#", 1)[1])
+            except ValueError:
+                return None
+        return None
+
+    def _enum_eq(neg):
+        def h(ex, st, fr, t, a):
+            if len(a) != 2:
+                return NotImplemented
+            x, y = _vidx(ex.deref(a[0])), _vidx(ex.deref(a[1]))
+            if x is None or y is None:
+                return NotImplemented
+            return (x == y) != neg
+        return h
+
+    def _noop(ex, st, fr, t, a):
+        return SX.Obj(adt="()")
+
     def _deref(ex, st, fr, t, a):
         d = ex.deref(a[0]) if len(a) == 1 else None
         if isinstance(d, SX.Obj) and d.adt == "array" and isinstance(a[0], SX.Ref):
@@ -278,6 +373,18 @@ def _models():
 
     def extra(md):
         md.on(SX.by(None, ("deref", "deref_mut", "as_mut_slice", "as_slice", "as_mut", "as_ref", "borrow_mut", "borrow")), _deref)
+        md.on(SX.by("core::cmp::PartialEq", "eq"), _enum_eq(False))
+        md.on(SX.by("core::cmp::PartialEq", "ne"), _enum_eq(True))
+        md.on(SX.by(None, "map"), _map)
+        md.on(SX.by(None, "for_each"), _for_each)
+        md.on(SX.by(None, "collect"), _collect)
+        md.on(SX.by(None, "log2"), _int1(lambda n: 0 if n <= 1 else (n - 1).bit_length()))
+        md.on(SX.by(None, "reverse_bits"), _int1(lambda x: int(format(x & (2 ** 64 - 1), "064b")[::-1], 2)))
+        md.on(SX.by(None, "wrapping_shr"), _int1(lambda x, k: x >> (k % 64)))
+        md.on(SX.by(None, "min"), _int1(lambda x, y: min(x, y)))
+        md.on(SX.by(None, "max"), _int1(lambda x, y: max(x, y)))
+        md.on(SX.by(None, "shrink_to_fit"), _noop)
+        md.on(SX.by("core::default::Default", "default"), lambda ex, st, fr, t, a: Q.const(0) if not a else NotImplemented)
         md.on(SX.by(None, ("chunks_exact_mut", "chunks_exact")), _chunks(True))
         md.on(SX.by(None, ("chunks_mut", "chunks")), _chunks(False))
         md.on(SX.by(None, ("split_at_mut", "split_at")), _split_at)
@@ -376,3 +483,59 @@ def check_dft(res, facts, tier):
             rule.bad(key, "the transform is not the DFT of size %d: %s" % (n, msg), fn.loc)
         else:
             rule.ok(key, "all %d outputs equal the DFT sums modulo Phi_%d" % (n, n), fn.loc)
+
+
+R2_QUICK = [2, 4, 8, 16]
+R2_THOROUGH = R2_QUICK + [32, 64]
+
+
+def evaluate_radix2(facts, fn, n):
+    """fft_helper_in_place / ifft_helper_in_place of the radix-2 domain on a symbolic domain of size n (generator w, order II)"""
+    ex = SX.Engine(facts, "ws", _models(), max_paths=4, max_depth=8, inline_limit=600, max_visits=400000)
+    arr = SX.Obj(adt="array", fields={i: Q.var("a%d" % i) for i in range(n)})
+    logn = n.bit_length() - 1
+    # Radix2EvaluationDomain { size, log_size_of_group, size_as_field_element, size_inv, group_gen, group_gen_inv, offset, offset_inv, offset_pow_size }
+    dom = SX.Obj(adt="ark_poly::domain::radix2::Radix2EvaluationDomain",
+                 fields={0: n, 1: logn, 2: Q.var("nf"), 3: Q.var("ninv"), 4: Q.var("w"), 5: Q.var("w"), 6: Q.const(1), 7: Q.const(1), 8: Q.const(1)})
+    order_ii = SX.Obj(adt="ark_poly::domain::radix2::fft::FFTOrder", variant="II", vidx=0, fields={})
+    if fn.d["argc"] != 3:
+        return "noverdict", "signature changed (argc %d)" % fn.d["argc"]
+    try:
+        paths = ex.run(fn, [SX.Ref(SX.Cell(dom)), SX.Ref(SX.Cell(arr)), order_ii])
+    except RecursionError:
+        return "noverdict", "recursion limit"
+    live = [p for p in paths if "panic" not in p.flags]
+    if len(live) != 1:
+        return "noverdict", "%d paths" % len(live)
+    p = live[0]
+    if p.flags:
+        return "noverdict", "not evaluable: %s" % sorted(p.flags)[:4]
+    out = ex.deref(p.args.cell(2).v) if p.args is not None else None
+    if not (isinstance(out, SX.Obj) and out.adt == "array" and len(out.fields) == n):
+        return "noverdict", "output slice not recovered"
+    vals = [SX.q_of(out.fields[i]) for i in range(n)]
+    if any(v is None or not v.is_poly() for v in vals):
+        return "noverdict", "an output slot is not a polynomial"
+    return "ok", vals
+
+
+def check_dft_radix2(res, facts, tier):
+    rule = res.rule("R-DFT.radix2", "Radix2EvaluationDomain: fft_helper_in_place / ifft_helper_in_place (in-order) on a domain of size n with generator g give out[i] = sum_j a_j g^(ij), n = 2..16 (thorough: ..64): roots table, butterfly order, strides and the bit-reversal together [polynomial-constant propagation, modulo Phi_n]", 0)
+    DOM = "ark_poly::domain::radix2::Radix2EvaluationDomain"
+    fields = None
+    for name in ("fft_helper_in_place", "ifft_helper_in_place"):
+        fns = [f for f in facts.fns(unit="ws", crate="ark_poly") if f.name == name and f.kind != "Closure" and "radix2::fft::" in f.id]
+        if not fns:
+            rule.bad("ark_poly|radix2::%s|dft" % name, "anchor missing")
+            continue
+        for n in (R2_THOROUGH if tier == "thorough" else R2_QUICK):
+            key = "ark_poly|radix2::%s|n=%d" % (name, n)
+            st, payload = evaluate_radix2(facts, fns[0], n)
+            if st != "ok":
+                rule.noverdict(key, "shape not modelled (%s)" % payload, fns[0].loc)
+                continue
+            msg = compare_with_dft(payload, n)
+            if msg:
+                rule.bad(key, "the transform is not the DFT of size %d in the generator it is given: %s" % (n, msg), fns[0].loc)
+            else:
+                rule.ok(key, "all %d outputs equal the DFT sums modulo Phi_%d" % (n, n), fns[0].loc)
